@@ -163,8 +163,11 @@ CLAIMS = {
                  "(the wrappers accept exactly the finite / finite non-negative literals), iv_rt (128-bit IV). Props/C18Tags.lean (second property file): the "
                  "composite tags - decryptionKey, sessionData, media (EXT-X-MEDIA incl. the builder's validation on re-reading), start, dateRange (client "
                  "attributes as a sorted map; string and hex values), iframeStreamInf, streamInf (two-line form), and line_media_playlist / line_master_playlist "
-                 "(every line either writer emits classifies back to the same typed line). PARTIAL only in this: the IEEE-754 facts are named hypotheses "
-                 "(FloatRT = FL1, the seconds pairs = FL2, FrameRateRT = FL3); they are validated by the correspondence run, by the implementation oracle "
+                 "(every line either writer emits classifies back to the same typed line). Props/C18Float.lean (third property file): FL1 as a theorem - float_roundtrip / ufloat_roundtrip (and "
+                 "parseFloat_display for any format): the text printed for a finite value is read back as that value whenever the printing model's "
+                 "digit search succeeds (DigitsFound, decidable; the kernel evaluates it on concrete values); secs_roundtrip reduces FL2 to two facts about "
+                 "numbers. PARTIAL only in this: the remaining IEEE-754 facts are named hypotheses "
+                 "(DigitsFound / the numeric core of FL2, FrameRateRT = FL3); they are validated by the correspondence run, by the implementation oracle "
                  "parse(to_string(v)) = v and by a sweep over binary32 bit patterns inside the harness (quick 2^25, thorough all 2^32 per wrapper), and "
                  "evaluated by the kernel on the concrete examples of C03 / C04."),
         "design_ref": "DESIGN.md §0.4, §7 C18",
